@@ -79,6 +79,7 @@ fn real_main(args: &[String], scratch: &str) -> i32 {
                 rep: out::Report::new(),
                 journal: out::Journal::from_env(),
                 scratch: scratch.to_string(),
+                clock: std::time::Instant::now(),
             };
             let t0 = std::time::Instant::now();
             match args[2].as_str() {
@@ -115,6 +116,7 @@ fn real_main(args: &[String], scratch: &str) -> i32 {
                 rep: out::Report::new(),
                 journal: out::Journal::from_env(),
                 scratch: scratch.to_string(),
+                clock: std::time::Instant::now(),
             };
             match args[2].as_str() {
                 "C01" | "C02code" | "C02stream" | "C09" | "C18" => iters::replay(&mut ctx, &args[2..]),
